@@ -493,7 +493,26 @@ def r7(ctx):
     ctx.floor("R09.7", 3, "Dense, Convolution, Deconvolution forward")
 
 
+def r8(ctx):
+    """learn computes its validation metrics through Network::validate (which clears the flags first), never by evaluating the network
+    itself while the flags are set: inside learn (helpers inlined) no call of predict / predict_batch; forward is called only from the
+    per-sample gradient computation"""
+    c = ctx.crate
+    fn = ctx.fn("network::Network::learn")
+    bad = sorted({cal for _, cal in calls(fn["body"]) if cal in ("network::Network::predict", "network::Network::predict_batch")})
+    ctx.check("R09.8", "learn-evaluates-only-through-validate", not bad, "learn-calls:" + ",".join(b.split("::")[-1] for b in bad), c.loc(fn),
+              "no predict / predict_batch inside learn (validation goes through validate())",
+              "Network::learn (with its private helpers inlined) calls %s while the training flags are set: metrics computed that way include dropout" % bad)
+    val = [x for x in walk(fn["body"]) if x.get("k") == "mcall" and x["callee"] == "network::Network::validate"]
+    ctx.check("R09.8", "learn-validates-through-validate", len(val) >= 1, "no-validate-call-in-learn", c.loc(fn), "learn calls self.validate(..) for its per-epoch metrics")
+
+
+RULES["R09.8"] = ("Network::learn (private helpers inlined) never calls predict / predict_batch itself: its per-epoch validation metrics come from "
+                  "Network::validate, which clears the flags before evaluating")
+
+
 def run(ctx):
+    ctx.guard("R09.8", "learn-evaluation", r8, ctx)
     ctx.guard("R09.7", "dropout-reads", r7, ctx)
     ctx.guard("R09.1", "dropout-sites", r1, ctx)
     ctx.guard("R09.2", "writers", r2, ctx)
